@@ -1,11 +1,15 @@
 package keeper
 
 import (
+	"context"
 	"math/big"
 
 	"github.com/tellor-io/layer/x/oracle/types"
 
 	"cosmossdk.io/math"
+
+	sdk "github.com/cosmos/cosmos-sdk/types"
+	authtypes "github.com/cosmos/cosmos-sdk/x/auth/types"
 )
 
 // vNum: the numeric value of a hex report value (the definition used by every reference below).
@@ -41,4 +45,45 @@ func vCopyReports(in []types.MicroReport) []types.MicroReport {
 	out := make([]types.MicroReport, len(in))
 	copy(out, in)
 	return out
+}
+
+// ---- keeper construction and stubs shared by the oracle harnesses
+
+type vDivvyCall struct {
+	addr    string
+	amount  math.LegacyDec
+	queryId string
+	height  uint64
+}
+
+// vRepStub: the reporter keeper as the oracle module sees it; records DivvyingTips calls, ReporterStake is
+// answered from stake/jailed fields set by the harness.
+type vRepStub struct {
+	calls    []vDivvyCall
+	stake    math.Int
+	stakeErr error
+}
+
+func (r *vRepStub) ReporterStake(ctx context.Context, repAddress sdk.AccAddress, queryId []byte) (math.Int, error) {
+	if r.stakeErr != nil {
+		return math.Int{}, r.stakeErr
+	}
+	return r.stake, nil
+}
+
+func (r *vRepStub) DivvyingTips(ctx context.Context, reporterAddr sdk.AccAddress, reward math.LegacyDec, queryId []byte, height uint64) error {
+	r.calls = append(r.calls, vDivvyCall{string(reporterAddr), reward, string(queryId), height})
+	return nil
+}
+
+type vOracleAcc struct{ types.AccountKeeper }
+
+func (vOracleAcc) GetModuleAccount(ctx context.Context, name string) sdk.ModuleAccountI {
+	return authtypes.NewEmptyModuleAccount(name)
+}
+
+func vOracleKeeper(rep types.ReporterKeeper, bank types.BankKeeper, reg types.RegistryKeeper) (sdk.Context, Keeper) {
+	ctx, ss, cdc := ndEnv("oracle")
+	k := NewKeeper(cdc, ss, vOracleAcc{}, bank, reg, rep, authtypes.NewModuleAddress("gov").String())
+	return ctx, k
 }
